@@ -11,6 +11,9 @@ NOTE = ("Trusted base: the Go type checker (go/types), go/packages loading of /r
 
 # id -> (technique, level text, design ref)
 CLAIMS = {
+ "C25": ("who-may-call of the controllers' reference constructor + controlling-condition analysis of the checked-controller lookup + census of CanBorrow's authorization and subtype tests + error flow of ID generation",
+         "Structural necessary conditions: live references are handed out only through the checked path, a controller is returned only after both borrow checks and the liveness lookup, and generated capability IDs cannot be dropped.",
+         "DESIGN.md §4 C25"),
  "C37": ("recover-arm summaries of the lexer/parser/checker boundaries + controlling-condition checks of the depth and token limits (SSA) + deferred restoration of the depth counters",
          "Structural necessary conditions: every panic of lexing, parsing and checking becomes a returned error, recursion depth and token count are bounded by tests that dominate the growth, and depth counters are restored on every exit.",
          "DESIGN.md §4 C37"),
